@@ -479,7 +479,9 @@ class Check(PropertyCheck):
                   "generator), tree_step / tree_every_layer_in_order (layer trees of ARBITRARY depth and branching with "
                   "re-bindable handlers: every layer at every depth satisfies the single-layer invariant w.r.t. its own "
                   "arrivals; induction over the schedule and over the tree), nextlayer_replay_in_order (for any child "
-                  "handler, so also a whole tree). Model = Layer.handle_event/__process/__continue, parent relays via "
+                  "handler), nextlayer_child_invariant / nextlayer_tree_in_order (the chosen layer — e.g. a whole tree — is "
+                  "only ever driven through its handle_event during buffering, replay, forwarding through the re-bound "
+                  "_handle_event and after the swap, so it keeps every invariant handle_event preserves). Model = Layer.handle_event/__process/__continue, parent relays via "
                   "`yield from child.handle_event`, NextLayer._handle_event/_ask/handle_event incl. the hand-over. Tie: "
                   "generated handler programs (with handler re-binding actions) run on real Layer subclasses arranged in "
                   "random trees (<=8 layers, height <=4, branching <=3) behind an optional real NextLayer and in the compiled "
